@@ -155,6 +155,15 @@ class Report:
     def error(self, msg):
         self.analysis_errors.append(msg)
 
+    def floor_errors(self):
+        """the anti-vacuity messages finish() would add (for the tools that
+        look at a report without finishing it)"""
+        floors = _load_json(FLOORS_PATH, {})
+        return ['rule %s enumerated %d sites, floor is %d' % (
+            rr.rule, rr.sites, floors[rr.rule]) for rr in self.rules
+            if floors.get(rr.rule) is not None and
+            rr.sites < floors[rr.rule]]
+
     # ------------------------------------------------------------------
     def finish(self, quiet=False):
         known = _load_json(KNOWN_PATH, {'findings': [], 'fixed': []})
